@@ -152,13 +152,21 @@ def publishSteps311 (p : Publish) : List Step :=
 
 /-! ### SUBSCRIBE / UNSUBSCRIBE -/
 
+/-- 1 + size of the Variable Byte Integer, for the optional subscription identifier -/
+def optVliPropLen : Option Nat → Option Nat
+  | none => some 0
+  | some v => (vliSize v).map (· + 1)
+
 def subscribeLengths5 (p : Subscribe) : Option (Nat × Nat) :=
-  let propLen := userPropsLen p.userProps + optLen 5 p.subscriptionId
-  match vliSize propLen with
+  match optVliPropLen p.subscriptionId with
   | none => none
-  | some s =>
-    some (2 + s + propLen + p.subscriptions.length * 3
-      + p.subscriptions.foldl (fun acc x => acc + x.topicFilter.length) 0, propLen)
+  | some sidLen =>
+    let propLen := userPropsLen p.userProps + sidLen
+    match vliSize propLen with
+    | none => none
+    | some s =>
+      some (2 + s + propLen + p.subscriptions.length * 3
+        + p.subscriptions.foldl (fun acc x => acc + x.topicFilter.length) 0, propLen)
 
 def subscriptionOptions5 (s : Subscription) : Nat :=
   s.qos + (if s.noLocal then 4 else 0) + (if s.retainAsPublished then 8 else 0) + s.retainHandling * 16
@@ -168,7 +176,7 @@ def subscribeSteps5 (p : Subscribe) : Option (List Step) :=
   | none => none
   | some (rl, pl) =>
     some ([Step.u8 130, .vli rl, .u16 p.packetId, .vli pl]
-      ++ stOptNum .u32 11 p.subscriptionId
+      ++ stOptNum .vli 11 p.subscriptionId
       ++ stUserProps p.userProps
       ++ p.subscriptions.flatMap (fun s => stLenBytes s.topicFilter ++ [Step.u8 (subscriptionOptions5 s)]))
 
@@ -376,10 +384,12 @@ def encodeCall : List Step → Nat → Bytes × List Step × Bool
     if free < 4 then ([], s :: rest, false)
     else match s with
       | .slice b =>
-        if b.length ≤ free then
+        -- `b.length ≤ free`, decided without walking the whole slice
+        match b.drop free with
+        | [] =>
           let (o, r, e) := encodeCall rest (free - b.length)
           (b ++ o, r, e)
-        else (b.take free, .slice (b.drop free) :: rest, false)
+        | tail => (b.take free, .slice tail :: rest, false)
       | atom =>
         match atomBytes atom with
         | none => ([], rest, true)
